@@ -627,7 +627,7 @@ func gateSlices(w *World, r *Report) {
 		for _, c := range callsIn(mk, "(par2.checksumShardLocationMap).put") {
 			a := c.Common().Args
 			if lastField(deepPath(a[2])) == "md5" {
-				if cc := stripConv(a[1]); cc != nil && strings.Contains(cc.String(), "Uint32") {
+				if cc := stripConv(a[1]); cc != nil && isLEUint32(w, cc, 0) {
 					ok = true
 				}
 			}
@@ -856,4 +856,39 @@ func resolveSingle(v ssa.Value) ssa.Value {
 		v = only
 	}
 	return v
+}
+
+// isLEUint32: v is binary.LittleEndian.Uint32(...) - directly, or as the only thing a small
+// module accessor returns.
+func isLEUint32(w *World, v ssa.Value, depth int) bool {
+	c, ok := stripConv(v).(*ssa.Call)
+	if !ok || depth > 2 {
+		return false
+	}
+	if strings.Contains(c.String(), "LittleEndian") && strings.Contains(c.String(), "Uint32") {
+		return true
+	}
+	if c.Call.IsInvoke() {
+		return strings.Contains(c.String(), "Uint32") && strings.Contains(fmt.Sprint(c.Call.Value), "LittleEndian")
+	}
+	g := c.Call.StaticCallee()
+	if g == nil {
+		return false
+	}
+	if g.Pkg != nil && g.Pkg.Pkg.Path() == "encoding/binary" && g.Name() == "Uint32" {
+		return strings.Contains(g.String(), "littleEndian")
+	}
+	if !w.inModule(g) || len(g.Blocks) == 0 {
+		return false
+	}
+	n := 0
+	for _, b := range g.Blocks {
+		if ret, ok := b.Instrs[len(b.Instrs)-1].(*ssa.Return); ok {
+			n++
+			if len(ret.Results) != 1 || !isLEUint32(w, ret.Results[0], depth+1) {
+				return false
+			}
+		}
+	}
+	return n > 0
 }
